@@ -57,7 +57,15 @@ fn special_a(t: &mut Tape) -> f64 {
 }
 
 pub fn gen_p(t: &mut Tape, a: f64) -> (f64, &'static str) {
-    match t.weighted(&[0.3, 0.08, 0.1, 0.12, 0.02, 0.13, 0.25]) {
+    match t.weighted(&[0.25, 0.07, 0.09, 0.1, 0.02, 0.12, 0.2, 0.15]) {
+        7 => {
+            // p = P(a, x*) for x* next to a distinguished abscissa (shape, mode, shape +- sqrt, multiples):
+            // the region where the asymptotic starting value w is closest to a
+            let x0 = *t.pick(&[a, a, (a - 1.0).max(1e-3), a + a.sqrt(), (a - a.sqrt()).max(1e-3), 3.0 * a, 0.5 * a, a - 1.0 / 3.0]);
+            let x0 = x0.max(1e-6);
+            let d = if t.bool() { 0.0 } else { 10f64.powf(-t.uniform(2.0, 12.0)) * if t.bool() { 1.0 } else { -1.0 } };
+            (pq(a, x0 * (1.0 + d)).0, "p:cdf-of-distinguished-point")
+        }
         0 => (t.unit(), "p:uniform"),
         1 => (t.below(64) as f64 * TWO_M53, "p:k*2^-53"),
         2 => (1.0 - 0.5f64.powi(t.range(1, 53) as i32), "p:1-2^-k"),
